@@ -1,6 +1,7 @@
 import PyxisVerif.Spec.C09
 import PyxisVerif.Lemmas.C10
 import PyxisVerif.Props.C10Global
+import PyxisVerif.Props.C10GlobalVft
 /-!
 # C10 – resolution succeeds exactly when names exist and by-value embedding is acyclic
 
